@@ -319,6 +319,12 @@ namespace occa {
   //   include_paths : Array
   hash_t kernelHeaderHash(const occa::json &props);
 
+  // Hash of one build property for kernel cache keys: the property name is
+  //   hashed together with its value, so that keys made by combining
+  //   several of these with ^ also depend on which property holds which value
+  hash_t kernelPropertyHash(const occa::json &props,
+                            const std::string &name);
+
   std::string assembleKernelHeader(const occa::json &props);
   //====================================
 }
